@@ -621,7 +621,7 @@ func (c *clipperBase) doSplitOp(outrec *OutRec, splitOp *OutPt) {
 		prevOp.next = newOp
 	}
 
-	if !(absArea2 > 1) || !(absArea2 > absArea1 && (area2 > 0) != (area1 > 0)) {
+	if !(absArea2 > 1 && (absArea2 > absArea1 || (area2 > 0) == (area1 > 0))) {
 		return
 	}
 
